@@ -157,6 +157,23 @@ pub fn main(spec_path: &str) {
         libc::signal(libc::SIGHUP, libc::SIG_IGN);
     }
     let log: Log = Arc::new(Mutex::new(unsafe { File::from_raw_fd(3) }));
+    {
+        // where a panic came from goes to the observation log (the read itself runs under catch_unwind)
+        let log2 = log.clone();
+        std::panic::set_hook(Box::new(move |info| {
+            let loc = info.location().map(|l| format!("{}:{}", l.file(), l.line())).unwrap_or_default();
+            let msg = info
+                .payload()
+                .downcast_ref::<&str>()
+                .map(|s| s.to_string())
+                .or_else(|| info.payload().downcast_ref::<String>().cloned())
+                .unwrap_or_default();
+            if let Ok(mut f) = log2.try_lock() {
+                let _ = writeln!(f, "E panic at {} : {}", loc, msg.replace('\n', " "));
+                let _ = f.flush();
+            }
+        }));
+    }
     let spec = std::fs::read_to_string(spec_path).expect("spec");
     let mut mode = EditMode::Emacs;
     let mut completion = CompletionType::Circular;
